@@ -114,6 +114,18 @@ def kv_check(ctx, module, theorems, relevant, what, assumptions, procs=None, cas
             corpus_n += 1
             if r and r[1] != r[2]:
                 violation(ctx, "corpus case %s: model/implementation difference" % f, "".join(l + "\n" for l in ops), tag="corpus")
+    # known findings of this property: replay each recorded history on the real code
+    for kf in load_known().get("findings", []):
+        if kf.get("property") != ctx.prop:
+            continue
+        ops = [l for l in read_lines(os.path.join(VERIF, kf["replay"])) if not l.startswith("#") and l.strip()]
+        r = replay_case(ctx, ops, "known")
+        if r is None:
+            continue
+        sig = kf["signature"]
+        ans = r[1][sig["line"]] if sig["line"] < len(r[1]) else ""
+        if ans.startswith(sig["answer_prefix"]):
+            ctx.known.append("%s %s [replay %s; implementation and reference model agree: %s]" % (kf["id"], kf["history"], kf["replay"], r[1] == r[2]))
     outs = run_kv(ctx, procs, cases)
     lines = ncases = diffs = reported = 0
     samples = []
